@@ -49,6 +49,11 @@ EXTRA.update({
  "C13-r9gam1": ["C13", "C05"], "C07-r9gam2": ["C07"], "C08-r9gbm1": ["C08"], "C14-r9gbm2": ["C14"], "C03-r9gcm1": ["C03", "C04"], "C10-r9gcm2": ["C10", "C09"],
  "C04-r9gdm1": ["C04", "C03", "C09"], "C12-r9gdm2": ["C12"], "C15-r9gem1": ["C15", "C05"], "C09-r9gem2": ["C09", "C04", "C03"], "C17-r9gfm1": ["C17"], "C17-r9gfm2": ["C17"],
 })
+EXTRA.update({
+ "C03-r10gam1": ["C03", "C04"], "C02-r10gam2": ["C02", "C14"], "C04-r10gbm1": ["C04", "C03"], "C05-r10gbm2": ["C05", "C11"], "C08-r10gcm1": ["C08"],
+ "C07-r10gcm2": ["C07"], "C11-r10gdm1": ["C11", "C05"], "C10-r10gdm2": ["C07", "C10"], "C13-r10gem1": ["C13", "C16"], "C14-r10gem2": ["C14"],
+ "C16-r10gfm1": ["C16", "C13"], "C17-r10gfm2": ["C17"],
+})
 PREFIX_PROP = {"d8b687c": ["C06"], "da7613f": ["C16"], "64a92d9": ["C02"], "2c87331": ["C13", "C02", "C12"], "06fc22c": ["C05", "C11"],
                "85dc330": ["C05", "C11"], "4c427cc": ["C13"], "a8065bf": ["C13"], "a4e97cf": ["C11"], "2aa0389": ["C04"],
                "9db7846": ["C17"], "23f20cf": ["C17"], "b18464c": ["C07"], "d06cb78": ["C10"], "796c1d9": ["C01", "C11"], "e184993": ["C10"]}
